@@ -2,6 +2,7 @@ package rules
 
 import (
 	"fmt"
+	"sort"
 	"strings"
 
 	"dtcheck/internal/core"
@@ -79,23 +80,35 @@ func c14Restart(r *R) {
 		return
 	}
 	// in flight ⇒ only queue
-	nQ := 0
-	for _, b := range fn.Blocks {
-		for _, ins := range b.Instrs {
-			st, ok := ins.(*ssa.Store)
-			if !ok {
-				continue
-			}
-			if r.d.Of(st.Addr) == "mc.restartQueued" && r.d.Of(st.Val) == "true" {
+	// (decided per path, so that it reads the same when the locked sections are helpers)
+	paths := r.pathsOf("C14.3", fn)
+	nQ, nA := 0, 0
+	okQ, okA := true, true
+	var badQ, badA string
+	for _, pt := range paths {
+		for _, st := range pt.Stores() {
+			if st.Addr == "mc.restartQueued" && st.Val == "true" {
 				nQ++
-				r.guarded("C14.3", st, "queue-when-in-flight", "-mc.restartedAt.IsZero()")
+				if !pt.HasBefore(st.Instr, "-mc.restartedAt.IsZero()") {
+					okQ, badQ = false, pt.Describe()
+				}
+			}
+		}
+		for _, ev := range pt.Evs {
+			if r.p.CalleeName(ev.C) == "(*channelmonitor.monitoredChannel).doRestartChannel" {
+				nA++
+				if !pt.HasBefore(ev.Instr, "+mc.restartedAt.IsZero()") {
+					okA, badA = false, pt.Describe()
+				}
 			}
 		}
 	}
+	r.c.Check(okQ, "C14.3", "queue-when-in-flight", r.p.Pos(fn.Pos()), "a restart is queued only while one is in flight", "restartQueued is set although no restart is in flight: "+badQ)
+	r.c.Check(okA, "C14.3", core.ShortFn(fn)+"→(*channelmonitor.monitoredChannel).doRestartChannel", r.p.Pos(fn.Pos()), "an attempt is started only when none is in flight", "a restart attempt is started while another is in flight: "+badA)
 	r.c.Floor("C14.3", nQ, 1, "stores of true to restartQueued")
-	r.guardedCalls("C14.3", fn, false, "(*channelmonitor.monitoredChannel).doRestartChannel", 1, "+mc.restartedAt.IsZero()")
+	r.c.Floor("C14.3", nA, 1, "restart attempts on the paths of restartChannel")
 	nAgain, nDone, nErr := 0, 0, 0
-	for _, pt := range r.pathsOf("C14.3", fn) {
+	for _, pt := range paths {
 		if pt.Count(r.p.Is("(*channelmonitor.monitoredChannel).doRestartChannel")) == 0 {
 			continue
 		}
@@ -196,50 +209,66 @@ func c14Timers(r *R) {
 	if sub != nil {
 		own := "+channelState.ChannelID()==mc.chid"
 		live := []string{own, "-channels.IsChannelCleaningUp(channelState.Status())", "-channels.IsChannelTerminated(channelState.Status())"}
-		n := 0
-		for _, ci := range core.CallSites(sub) {
-			name := r.p.CalleeName(ci.Common())
-			act := name == "(*channelmonitor.monitoredChannel).resetConsecutiveRestarts" || name == "(*channelmonitor.monitoredChannel).watchForResponderComplete" ||
-				strings.HasPrefix(name, "dyn:mc.restartChannelDebounced") || strings.HasPrefix(name, "dyn:cancelAcceptTimer") || strings.HasPrefix(name, "dyn:mc.watchForResponderAccept()")
-			if !act {
-				continue
-			}
-			n++
-			r.guarded("C14.5", ci, "subscriber/"+r.siteKey(ci), live...)
-		}
-		r.c.Floor("C14.5", n, 5, "actions in the monitor's subscriber")
-		// event → action mapping
+		// decided per path (a handler the closure delegates to, if introduced later, is walked through)
+		paths := r.pathsOf("C14.5", sub)
 		want := map[string]string{
 			"(*channelmonitor.monitoredChannel).resetConsecutiveRestarts": "DataSent|DataReceived", "(*channelmonitor.monitoredChannel).watchForResponderComplete": "FinishTransfer",
 		}
-		for _, ci := range core.CallSites(sub) {
-			name := r.p.CalleeName(ci.Common())
-			w, ok := want[name]
-			if !ok {
-				continue
-			}
-			have := true
-			np := 0
-			for _, pt := range pathsThrough(r.pathsOf("C14.5", sub), ci) {
-				np++
-				one := false
-				for _, evn := range strings.Split(w, "|") {
-					if pt.HasBefore(ci, "+"+evn+"==event.Code") {
-						one = true
+		type verdict struct {
+			site           ssa.Instruction
+			name           string
+			guard, trigger string
+			n              int
+		}
+		by := map[string]*verdict{}
+		var keys []string
+		for _, pt := range paths {
+			for _, ev := range pt.Evs {
+				name := r.p.CalleeName(ev.C)
+				act := name == "(*channelmonitor.monitoredChannel).resetConsecutiveRestarts" || name == "(*channelmonitor.monitoredChannel).watchForResponderComplete" ||
+					strings.HasPrefix(name, "dyn:mc.restartChannelDebounced") || strings.HasPrefix(name, "dyn:cancelAcceptTimer") || strings.HasPrefix(name, "dyn:mc.watchForResponderAccept()")
+				ci, isCall := ev.Instr.(ssa.CallInstruction)
+				if !act || !isCall {
+					continue
+				}
+				k := r.siteKey(ci)
+				v := by[k]
+				if v == nil {
+					v = &verdict{site: ev.Instr, name: name}
+					by[k] = v
+					keys = append(keys, k)
+				}
+				v.n++
+				for _, a := range live {
+					if !pt.HasBefore(ev.Instr, a) && v.guard == "" {
+						v.guard = "reached without " + a + " on " + pt.Describe()
 					}
 				}
-				if !one {
-					have = false
+				if w, ok := want[name]; ok {
+					one := false
+					for _, evn := range strings.Split(w, "|") {
+						if pt.HasBefore(ev.Instr, "+"+evn+"==event.Code") {
+							one = true
+						}
+					}
+					if !one && v.trigger == "" {
+						v.trigger = name + " is not triggered by " + w + " on " + pt.Describe()
+					}
 				}
 			}
-			if np == 0 {
-				have = false
-			}
-			r.c.Check(have, "C14.5", "subscriber-event/"+r.siteKey(ci), r.p.InstrPos(ci), "triggered by "+w, name+" is not triggered by "+w)
 		}
+		sort.Strings(keys)
+		for _, k := range keys {
+			v := by[k]
+			r.c.Check(v.guard == "", "C14.5", "subscriber/"+k, r.p.InstrPos(v.site), "only for the monitored channel while it is live", v.guard)
+			if w, ok := want[v.name]; ok {
+				r.c.Check(v.trigger == "", "C14.5", "subscriber-event/"+k, r.p.InstrPos(v.site), "triggered by "+w, v.trigger)
+			}
+		}
+		r.c.Floor("C14.5", len(keys), 5, "actions in the monitor's subscriber")
 		// the cleaning-up / terminal branch schedules Shutdown and returns
 		nS := 0
-		for _, pt := range r.pathsOf("C14.5", sub) {
+		for _, pt := range paths {
 			if pt.Has("+channels.IsChannelCleaningUp(channelState.Status())") || pt.Has("+channels.IsChannelTerminated(channelState.Status())") {
 				nS++
 				goShut := false
